@@ -12,6 +12,7 @@ import z3
 
 from .values import *
 
+
 TAG = z3.Function("dyn_tag", I, I)
 DREAL = z3.Function("dyn_real", I, R)
 DLEN = z3.Function("dyn_len", I, I)
@@ -120,6 +121,21 @@ class DynOps:
         return z3.BoolVal(False)
 
     def dyn_binop(self, op, a, b, node):
+        # list * n (the only arithmetic the configuration code performs on a value of unknown type): a new list of n copies, item k = item (k mod len)
+        if isinstance(op, ast.Mult) and a.kind == "dyn" and b.kind in ("int", "bool") and not self.spec:
+            self.ctx.oblige("safety.repetition_of_a_list", TAG(a.z) == 5, node)
+            self.ctx.assume(TAG(a.z) == 5)
+            from .ops import to_int_z
+            n = to_int_z(b)
+            r = VDyn(self.ctx.fresh("dynrep", I))
+            k = z3.Int("k!rep")
+            la = DLEN(a.z)
+            cnt = z3.If(n > 0, n, 0)
+            self.ctx.assume(z3.And(TAG(r.z) == 5, r.z != a.z,
+                                   DLEN(r.z) == z3.If(la == 1, cnt, z3.If(la == 0, 0, la * cnt)),
+                                   z3.ForAll([k], z3.Implies(z3.And(0 <= k, k < DLEN(r.z)), DITEM(r.z, k) == DITEM(a.z, z3.If(la == 1, 0, k % la))),
+                                             patterns=[DITEM(r.z, k)])))
+            return r
         raise EngineError("arithmetic on dyn value")
 
     def dyn_compare(self, op, a, b, node):
